@@ -149,16 +149,45 @@ class C17(RunProp):
                 if rng.random() < 0.4:
                     c = add_multi_wait(rng, c)
             runners = ["async"] if c.get("async_only") else ["sync", "async"]
+            cached = kind in ("dag", "loop") and not c.get("async_only") and rng.random() < 0.2
             for runner in runners:
-                yield {"program": c["program"], "values": c["values"], "cfg": {}, "runner": runner, "kind": kind, "loop": c.get("loop"),
-                       "seed": rng.randint(0, 10**6)}
+                case = {"program": c["program"], "values": c["values"], "cfg": {}, "runner": runner, "kind": kind, "loop": c.get("loop"),
+                        "seed": rng.randint(0, 10**6)}
+                if cached:
+                    # the SECOND run on a shared cache, every signalling function node cacheable: a producer served from the cache has
+                    # completed all the same — its signal is produced, its waiters run
+                    prog = copy.deepcopy(c["program"])
+                    for n in prog[-1]["nodes"]:
+                        if n["kind"] == "fn" and n.get("emits"):
+                            n["cache"] = True
+                    case.update(program=prog, cached=True)
+                yield case
 
     def impl(self, case: dict) -> Any:
         ctl = sched.Controller("random", case["seed"]) if case["runner"] == "async" else None
+        if case.get("cached"):
+            from hypergraph.cache import InMemoryCache
+
+            cache = InMemoryCache()
+            try:
+                impl.run_case(case["program"], None, case["values"], case["cfg"], case["runner"], cache=cache,
+                              ctl=sched.Controller("random", case["seed"] + 1) if case["runner"] == "async" else None)
+                return impl.run_case(case["program"], None, case["values"], case["cfg"], case["runner"], record_events=True, ctl=ctl, cache=cache)
+            except sched.Deadlock:
+                return {"status": "deadlock", "values": [], "error": None, "raised": False, "calls": [], "events": [], "pause": None, "warnings": 0}
         try:
             return impl.run_case(case["program"], None, case["values"], case["cfg"], case["runner"], record_events=True, ctl=ctl)
         except sched.Deadlock:
             return {"status": "deadlock", "values": [], "error": None, "raised": False, "calls": [], "events": [], "pause": None, "warnings": 0}
+
+    def compare(self, case: dict, i: Any, m: Any) -> str | None:
+        if case.get("cached"):
+            # node bodies served from the cache are not invoked: outcome and values only
+            for k in ("status", "values", "error", "raised"):
+                if impl.differ(i.get(k), m.get(k)):
+                    return f"{k} (second run on a shared cache): impl={i.get(k)!r} model (uncached)={m.get(k)!r}"
+            return None
+        return super().compare(case, i, m)
 
     def oracle(self, case: dict, obs: Any) -> str | None:
         if obs["status"] in ("build-error", "deadlock"):
